@@ -457,7 +457,7 @@ def m_vec_into_iter(ex, callee, args):
 
 @model(r'^<(std::slice::Iter<.*>|std::vec::IntoIter<.*>|Enumerate<.*>|Box<dyn Iterator<.*>>|'
        r'aho_corasick::FindOverlappingIter<.*>|aho_corasick::FindIter<.*>|regex::SetMatchesIter<.*>|Peekable<.*>|Chars<.*>|'
-       r'std::str::Split<.*>|&mut .*|Map<.*>|Rev<.*>|Filter<.*>) as IntoIterator>::into_iter$')
+       r'std::str::\w+<.*>|Split\w*<.*>|&mut .*|Map<.*>|Rev<.*>|Filter<.*>|Skip<.*>|Take<.*>|Zip<.*>|Chain<.*>|TakeWhile<.*>|SkipWhile<.*>) as IntoIterator>::into_iter$')
 def m_iter_identity(ex, callee, args):
     return args[0]
 
@@ -1173,15 +1173,19 @@ def parse_int_terms(uni, s, ty):
 # splitting / stripping (concrete strings here; the char-level symbolic
 # versions live in models_chars.py and take precedence when loaded)
 
-@model(r'^core::str::<impl str>::split::<(char|&str)>$')
+@model(r'^core::str::<impl str>::(split|split_terminator)::<(char|&str)>$')
 def m_split(ex, callee, args):
     s = as_str(args[0])
     p = _pat(ex, args[1])
+    term = 'split_terminator' in callee
     if isinstance(s, bytes) and isinstance(p, bytes):
-        return IterV('owned', VecV([StrV(x) for x in s.split(p)]))
+        parts = s.split(p)
+        if term and parts and parts[-1] == b'':
+            parts.pop()
+        return IterV('owned', VecV([StrV(x) for x in parts]))
     h = getattr(ex, 'sym_split', None)
     if h is not None:
-        return h(s, p)
+        return h(s, p, term) if term else h(s, p)
     raise Unsupported('split of a symbolic string')
 
 
